@@ -67,7 +67,7 @@ def repo_files():
     out += [os.path.join(REPO, "Cargo.toml"), os.path.join(REPO, "Cargo.lock")]
     return [p for p in out if os.path.exists(p)]
 
-GENERATED_V = ("TablesGen.v", "ConstsGen.v", "SrcGen.v", "SrcTieLevel.v", "SrcTieTables.v", "SrcTiePreds.v")
+GENERATED_V = ("TablesGen.v", "ConstsGen.v", "SrcGen.v", "SrcTieLevel.v", "SrcTieTables.v", "SrcTiePreds.v", "SrcTieDir.v", "SrcTieBaseDir.v", "SrcTieL1.v")
 
 def verif_files():
     out = []
@@ -91,10 +91,11 @@ def write_if_changed(path, content):
     if old != content:
         open(path, "w").write(content)
 
-TIE_TEMPLATES = ["SrcTieLevel", "SrcTieTables", "SrcTiePreds"]
+TIE_TEMPLATES = ["SrcTieLevel", "SrcTieTables", "SrcTiePreds", "SrcTieDir", "SrcTieBaseDir", "SrcTieL1"]
 # which properties lean on which translated-source tie file
 TIE_PROPS = {"C19": ["Proofs/SrcTieLevel.v"], "C14": ["Proofs/SrcTieTables.v"], "C15": ["Proofs/SrcTieTables.v"],
-             "C01": ["Proofs/SrcTiePreds.v"], "C11": ["Proofs/SrcTieLevel.v"]}
+             "C01": ["Proofs/SrcTiePreds.v"], "C11": ["Proofs/SrcTieLevel.v"],
+             "C03": ["Proofs/SrcTieL1.v"], "C16": ["Proofs/SrcTieBaseDir.v"], "C17": ["Proofs/SrcTieDir.v"]}
 # a tie file that stops compiling is a broken obligation, except where the correspondence is EXHAUSTIVE over
 # the function's whole (finite) domain and is therefore a complete tie on its own
 TIE_FALLBACK_EXHAUSTIVE = {"C14", "C15"}
@@ -426,7 +427,9 @@ def proof_status(prop, coq):
         else:
             tie["not_established"] += lem
             problems.append("translated-source tie no longer checks: " + tf)
-        stem = {"Proofs/SrcTieLevel.v": "level::", "Proofs/SrcTieTables.v": "char_data::", "Proofs/SrcTiePreds.v": ("prepare::", "implicit::", "char_data::is_rtl")}[tf]
+        stem = {"Proofs/SrcTieLevel.v": "level::", "Proofs/SrcTieTables.v": "char_data::", "Proofs/SrcTiePreds.v": ("prepare::", "implicit::", "char_data::is_rtl"),
+                "Proofs/SrcTieDir.v": "lib::para_direction", "Proofs/SrcTieBaseDir.v": "lib::get_base_direction_impl",
+                "Proofs/SrcTieL1.v": "lib::reorder_levels"}[tf]
         for r, why in skipped.items():
             if r.startswith(stem):
                 tie["notes"].append("not translated: %s (%s); the correspondence run is the only tie for it" % (r, why))
